@@ -1969,6 +1969,9 @@ func (schema *Schema) visitJSONObject(settings *schemaValidationSettings, value 
 
 	var me MultiError
 
+	// properties that received their schema's default just below
+	var defaulted map[string]struct{}
+
 	if settings.asreq || settings.asrep {
 		properties := make([]string, 0, len(schema.Properties))
 		for propName := range schema.Properties {
@@ -1981,11 +1984,17 @@ func (schema *Schema) visitJSONObject(settings *schemaValidationSettings, value 
 			repWO := settings.asrep && propSchema.Value.WriteOnly && !settings.writeOnlyValidationDisabled
 
 			if f := settings.defaultsSet; f != nil && value[propName] == nil {
-				if dflt := propSchema.Value.Default; dflt != nil && !reqRO && !repWO {
+				// A recursive schema may carry a default for itself: its default is not
+				// injected again inside a value that is itself that default.
+				if dflt := propSchema.Value.Default; dflt != nil && !reqRO && !repWO && settings.defaultsInProgress[propSchema.Value] == 0 {
 					// a copy: nested defaults are injected into this value further down,
 					// which must not write into the document's own default
 					value[propName] = deepcopy.Copy(dflt)
 					settings.onceSettingDefaults.Do(f)
+					if defaulted == nil {
+						defaulted = make(map[string]struct{})
+					}
+					defaulted[propName] = struct{}{}
 				}
 			}
 
@@ -2058,7 +2067,18 @@ func (schema *Schema) visitJSONObject(settings *schemaValidationSettings, value 
 				if p == nil {
 					return foundUnresolvedRef(propertyRef.Ref)
 				}
-				if err := p.visitJSON(settings, v); err != nil {
+				_, isDefault := defaulted[k]
+				if isDefault {
+					if settings.defaultsInProgress == nil {
+						settings.defaultsInProgress = make(map[*Schema]int)
+					}
+					settings.defaultsInProgress[p]++
+				}
+				err := p.visitJSON(settings, v)
+				if isDefault {
+					settings.defaultsInProgress[p]--
+				}
+				if err != nil {
 					if settings.failfast {
 						return errSchema
 					}
